@@ -9,7 +9,7 @@ use h3_datagram::datagram::Datagram;
 use serde_json::{json, Value};
 
 use crate::reference::varint as rv;
-use crate::runner::{hex, unhex, Ctx, Failure, PropDef, Tier, Verdict};
+use crate::runner::{catch, hex, unhex, Ctx, Failure, PropDef, Tier, Verdict};
 use crate::tape::Tape;
 
 pub static PROP: PropDef = PropDef {
@@ -40,6 +40,9 @@ enum Consume {
     /// advance across chunk borders: read chunk(), advance by more than the chunk when possible (header+payload in one advance)
     Jump(usize),
     Vectored,
+    /// raw advance(cnt) calls (each may cross the header/payload boundary, as Buf::advance allows), then the rest
+    /// is drained chunk by chunk and must equal the wire bytes from that offset on
+    Skips(Vec<usize>),
 }
 
 fn drain<B: Buf>(mut b: B, how: &Consume) -> Result<(Vec<u8>, bool), String> {
@@ -85,6 +88,28 @@ fn drain<B: Buf>(mut b: B, how: &Consume) -> Result<(Vec<u8>, bool), String> {
                 b.advance(n);
             }
             out.extend_from_slice(&peeked);
+            while b.has_remaining() {
+                let c = b.chunk();
+                if c.is_empty() {
+                    return Err(format!("chunk() empty with {} bytes remaining", b.remaining()));
+                }
+                let n = c.len();
+                out.extend_from_slice(c);
+                b.advance(n);
+            }
+        }
+        Consume::Skips(skips) => {
+            let mut skipped = 0usize;
+            for k in skips {
+                let k = (*k).min(b.remaining());
+                b.advance(k);
+                skipped += k;
+                if b.remaining() != total - skipped {
+                    return Err(format!("after advancing {skipped} bytes remaining() is {} instead of {}", b.remaining(), total - skipped));
+                }
+            }
+            // mark the skipped prefix so that the caller compares only the tail
+            out.resize(skipped, 0);
             while b.has_remaining() {
                 let c = b.chunk();
                 if c.is_empty() {
@@ -144,7 +169,12 @@ fn check_encode(k: u64, payload: &[u8], how: &Consume, ctx: &mut Ctx) -> Verdict
     if enc.remaining() != want.len() {
         return Err(Failure::direct(format!("encoded length {} expected {}", enc.remaining(), want.len()), case()));
     }
-    let (got, _) = drain(enc, how).map_err(|e| Failure::direct(e, case()))?;
+    let (mut got, _) = catch(|| drain(enc, how)).map_err(|p| Failure::direct(format!("panic while consuming the encoded datagram: {p}"), case()))?.map_err(|e| Failure::direct(e, case()))?;
+    if let Consume::Skips(sk) = how {
+        // the skipped prefix was not read: take it from the expectation
+        let n: usize = sk.iter().sum::<usize>().min(want.len()).min(got.len());
+        got[..n].copy_from_slice(&want[..n]);
+    }
     if got != want {
         let n = got.len().min(24);
         return Err(Failure::direct(
@@ -164,6 +194,7 @@ fn check_encode(k: u64, payload: &[u8], how: &Consume, ctx: &mut Ctx) -> Verdict
     let split = match how {
         Consume::Steps(s) => hdr_len > 1 && s.first().copied().unwrap_or(1) < hdr_len,
         Consume::Jump(n) => *n < hdr_len,
+        Consume::Skips(sk) => sk.first().map(|a| *a > 0 && *a < hdr_len).unwrap_or(false),
         _ => false,
     };
     if split {
@@ -246,6 +277,15 @@ fn exhaustive(ctx: &mut Ctx, shard: usize, nshards: usize) -> Verdict {
                     check_encode(k, &payload, &p, ctx)?;
                 }
             }
+            // every pair of raw advances (a inside the header, b reaching up to 3 bytes into the payload)
+            let hdr = rv::min_len(k).unwrap();
+            let payload = crate::tape::prf_bytes(k ^ 99, 6);
+            for a in 0..=hdr {
+                for b in 0..=(hdr - a + 3) {
+                    check_encode(k, &payload, &Consume::Skips(vec![a, b]), ctx)?;
+                    check_encode(k, &payload, &Consume::Skips(vec![a, 1, b]), ctx)?;
+                }
+            }
             // decode: every form of k that fits, every truncation, plus tails
             for n in [1usize, 2, 4, 8] {
                 if let Some(enc) = rv::encode_len(k, n) {
@@ -288,7 +328,11 @@ fn exhaustive(ctx: &mut Ctx, shard: usize, nshards: usize) -> Verdict {
 }
 
 fn gen_consume(t: &mut Tape) -> Consume {
-    match t.pick(5) {
+    match t.pick(6) {
+        5 => {
+            let n = t.int(1, 4) as usize;
+            Consume::Skips((0..n).map(|_| t.int(0, 12) as usize).collect())
+        }
         0 => Consume::CopyAll,
         1 => Consume::Vectored,
         2 => Consume::Jump(t.int(1, 9) as usize),
@@ -358,6 +402,9 @@ fn run_direct(d: &Value, ctx: &mut Ctx) -> Verdict {
             } else if s.starts_with("Jump") {
                 let n: usize = s.split(|c: char| !c.is_ascii_digit()).find(|x| !x.is_empty()).map(|x| x.parse().unwrap()).unwrap_or(1);
                 Consume::Jump(n)
+            } else if s.starts_with("Skips") {
+                let nums: Vec<usize> = s.split(|c: char| !c.is_ascii_digit()).filter(|x| !x.is_empty()).map(|x| x.parse().unwrap()).collect();
+                Consume::Skips(nums)
             } else if s.starts_with("Vectored") {
                 Consume::Vectored
             } else {
